@@ -39,7 +39,7 @@ type ConcCase struct {
 }
 
 func genConcCase(t *rapid.T) *ConcCase {
-	o := gen.ProgOpt{Fuel: 3, Partial: true, Sugar: true, Maybe: true, Times: true, HostEnv: true}
+	o := gen.ProgOpt{Fuel: 3, Partial: true, Sugar: true, Maybe: true, Times: true, HostEnv: true, Harness: true}
 	g := gen.NewG(t, o)
 	c := &ConcCase{}
 	n := rapid.IntRange(2, 6).Draw(t, "nprogs")
@@ -77,12 +77,33 @@ func outcomeString(v *val.Val, err error, p *run.Panic) string {
 
 var spinSink int64
 
+// newConcEngine: an engine with the harness's strict / lazy / polymorphic
+// functions registered; every other one uses the closure back end.
+func newConcEngine(i int) *yae.Expr {
+	be := run.VMSwitch
+	if i%3 == 2 {
+		be = run.Closure
+	}
+	return run.NewEngine(be, run.StdHarness).E
+}
+
 func checkConc(c *ConcCase) *Outcome {
 	srcs := make([]string, len(c.Exprs))
 	for i, e := range c.Exprs {
 		srcs[i] = m.Print(e, m.PrintOpt{})
 	}
-	hostOK := run.HostableEnv(c.Env)
+	hostOK := run.HostableEnv(c.Env) && !envHasFun(c.Env)
+	usesHarness := make([]bool, len(c.Exprs))
+	for i, e := range c.Exprs {
+		e.Walk(func(x *m.Expr) {
+			if x.K == "call" || x.K == "mcall" {
+				switch x.Name {
+				case "tr", "boom", "hsub", "hpair", "lz_if", "lz_and", "lz_pick":
+					usesHarness[i] = true
+				}
+			}
+		})
+	}
 	var host interface{}
 	if hostOK {
 		host = run.EnvStruct(c.Vals)
@@ -93,7 +114,7 @@ func checkConc(c *ConcCase) *Outcome {
 	compileErr := make([]bool, len(srcs))
 	alone := make([]string, len(srcs))
 	for i, src := range srcs {
-		e := yae.NewExpr()
+		e := newConcEngine(i)
 		var cl yae.Callable
 		var cerr error
 		if p := run.Guard(func() { cl, cerr = e.Compile(src, run.TypeEnv(c.Env)) }); p != nil || cerr != nil {
@@ -107,7 +128,7 @@ func checkConc(c *ConcCase) *Outcome {
 		alone[i] = outcomeString(v, err, p)
 	}
 	// ---- the shared engine has finished its first compilation; shared callables exist
-	shared := yae.NewExpr()
+	shared := newConcEngine(0)
 	sharedCl := make([]yae.Callable, len(srcs))
 	for i, src := range srcs {
 		if compileErr[i] {
@@ -151,7 +172,7 @@ func checkConc(c *ConcCase) *Outcome {
 				case "own":
 					p = run.Guard(func() {
 						var cl yae.Callable
-						cl, err = yae.NewExpr().Compile(srcs[op.Prog], tenv)
+						cl, err = newConcEngine(wi+oi).Compile(srcs[op.Prog], tenv)
 						if err == nil {
 							v, err = cl(venv)
 						}
@@ -165,7 +186,7 @@ func checkConc(c *ConcCase) *Outcome {
 						}
 					})
 				case "eval":
-					if hostOK {
+					if hostOK && !usesHarness[op.Prog] {
 						p = run.Guard(func() { v, err = yae.Eval(srcs[op.Prog], host) })
 					} else {
 						p = run.Guard(func() { v, err = sharedCl[op.Prog](venv) })
@@ -197,9 +218,18 @@ func checkConc(c *ConcCase) *Outcome {
 var c14 = Register(&Prop[ConcCase]{ID: "C14", Name: "concurrent-workloads", Gen: genConcCase, Check: checkConc})
 
 func TestC14(t *testing.T) {
-	R.Rule = "generated workloads under the race detector: 4-32 goroutines, each a drawn sequence of 2-8 operations over 2-6 generated programs (mono / poly calls, lazies, literals): compile + invoke on an engine of its own, compile on a shared engine that has finished its first compilation, invoke a shared callable, one-shot Eval; drawn busy-spin start offsets; oracle: no race report (the detector halts the run; the workload is the replay file) and every operation's outcome equals the outcome of the same operation run alone beforehand; non-trivial = at least half of the workload's operations started while another goroutine was inside yae (atomic in-flight counter)"
+	R.Rule = "generated workloads under the race detector: 4-32 goroutines, each a drawn sequence of 2-8 operations over 2-6 generated programs (mono / poly calls, built-in and user-registered lazy functions incl. ones that force a thunk twice, dynamic calls, literals): compile + invoke on an engine of its own, compile on a shared engine that has finished its first compilation, invoke a shared callable, one-shot Eval; drawn busy-spin start offsets; oracle: no race report (the detector halts the run; the workload is the replay file) and every operation's outcome equals the outcome of the same operation run alone beforehand; non-trivial = at least half of the workload's operations started while another goroutine was inside yae (atomic in-flight counter)"
 	R.Assume = []string{"the Go scheduler owns the interleaving: this samples schedules, it does not enumerate them", "the race detector has no false positives"}
 	reportKnown(t, "C14")
 	runRegress(t, "C14")
 	c14.Run(t, budget(120, 3000))
+}
+
+func envHasFun(env map[string]*m.Type) bool {
+	for _, t := range env {
+		if t.HasKind(m.TFun) {
+			return true
+		}
+	}
+	return false
 }
